@@ -266,7 +266,106 @@ func Run(c *engine.Ctx) {
 			}
 		}
 	}
+	graphShapes(c)
 	histories(c)
+}
+
+// graphShapes: totality over containment shapes the construction-step search cannot reach at its depth:
+// every ordered list of <=3 contains-edge objects with 1..2 ordered targets (self included) over four
+// nodes, rooted at the first. Self-containment, cycles and multiple parents are all inside.
+func graphShapes(c *engine.Ctx) {
+	c.Group("totality-graph-shapes")
+	ids := []string{"r", "a", "b", "c"}
+	type eo struct {
+		From string
+		To   []string
+	}
+	var objs []eo
+	for _, f := range ids {
+		for _, t1 := range ids {
+			objs = append(objs, eo{f, []string{t1}})
+			for _, t2 := range ids {
+				if t2 != t1 {
+					objs = append(objs, eo{f, []string{t1, t2}})
+				}
+			}
+		}
+	}
+	fs := []formats.Format{formats.CDX15JSON, formats.SPDX23JSON}
+	if c.Thorough() {
+		fs = []formats.Format{formats.CDX12JSON, formats.CDX14JSON, formats.CDX15JSON, formats.SPDX23JSON}
+	}
+	c.Bound("totality-graph-shapes", fmt.Sprintf("nodes %v rooted at r; every ordered list of <=3 contains-edge objects over %d candidates (1..2 ordered targets, self included) x %d formats", ids, len(objs), len(fs)))
+	var rec func(cur []int)
+	rec = func(cur []int) {
+		if c.Expired() {
+			c.Cap("deadline in totality-graph-shapes")
+			return
+		}
+		sel := append([]int{}, cur...)
+		for _, f := range fs {
+			f := f
+			if !c.Thorough() && len(sel) == 3 && f == formats.SPDX23JSON {
+				continue // quick tier: SPDX (no nesting pass) up to two edge objects
+			}
+			c.Case(func() any {
+				var l []eo
+				for _, i := range sel {
+					l = append(l, objs[i])
+				}
+				return map[string]any{"edges": l, "format": string(f)}
+			}, func(t *engine.T) *engine.Violation {
+				d := sbom.NewDocument()
+				d.Metadata.Id = "urn:uuid:3e671687-395b-41f5-a30f-a58921a69b79"
+				for _, id := range ids {
+					d.NodeList.Nodes = append(d.NodeList.Nodes, &sbom.Node{Id: id, Name: "n" + id})
+				}
+				d.NodeList.RootElements = []string{"r"}
+				for _, i := range sel {
+					d.NodeList.Edges = append(d.NodeList.Edges, &sbom.Edge{From: objs[i].From, Type: sbom.Edge_contains, To: append([]string{}, objs[i].To...)})
+				}
+				out1, err1 := rw.Write(d, f, 2)
+				t.Transitions(1)
+				if err1 == nil && len(out1) == 0 {
+					return engine.Violate("neither", fam(f), "no error and no output")
+				}
+				if len(sel) == 3 && !c.Thorough() {
+					// quick tier: termination and error-xor-output only at the deepest level
+					t.Outcome(fam(f) + ":shape-returned")
+					t.State(fmt.Sprint("shape", sel, f))
+					return nil
+				}
+				out2, err2 := rw.Write(d, f, 2)
+				t.Transitions(1)
+				if (err1 == nil) != (err2 == nil) {
+					return engine.Violate("nondeterministic", fam(f), "first call err=%v, second call err=%v", err1, err2)
+				}
+				if err1 == nil {
+					n1, e1 := rw.NormalizeJSON(out1)
+					n2, e2 := rw.NormalizeJSON(out2)
+					if e1 != nil || e2 != nil {
+						return engine.Violate("output-not-json", fam(f), "output is not JSON: %v %v", e1, e2)
+					}
+					t.Validated(1)
+					if n1 != n2 {
+						return engine.Violate("nondeterministic", fam(f), "two serializations of the same document differ:\n%s\n%s", n1, n2)
+					}
+					t.Outcome(fam(f) + ":shape-output")
+				} else {
+					t.Outcome(fam(f) + ":shape-error")
+				}
+				t.State(fmt.Sprint("shape", sel, f))
+				return nil
+			})
+		}
+		if len(cur) == 3 {
+			return
+		}
+		for i := range objs {
+			rec(append(cur, i))
+		}
+	}
+	rec(nil)
 }
 
 func fam(f formats.Format) string {
